@@ -174,6 +174,13 @@ func TestC10_StateMachine(t *testing.T) {
 			}
 			switch act {
 			case 0: // Start
+				if state == c10New_ && isDealer && g.Chance("shortSeedFirst", 1, 5) {
+					// a dealer's Start with a seed that is too short is refused with the invalid-inputs error and does not start
+					// the instance: a rejected call like any other (the valid Start that follows must succeed)
+					short := g.Bytes("shortSeed", 0, 31)
+					call(fmt.Sprintf("Start(%d-byte seed)", len(short)), "input", false, func(c *c10Inst) error { return c.inst.Start(short) })
+					g.Class("startWithShortSeedRefused")
+				}
 				if state == c10New_ {
 					state = c10Running
 					call("Start(seed)", "nil", true, func(c *c10Inst) error { return c.inst.Start(seed) })
